@@ -102,7 +102,7 @@ type MemberRes struct {
 func Ask(m *Sch, x any) MemberRes {
 	var res MemberRes
 	res.Panic = hx.Safely(func() {
-		out, err := m.Z.ParseAny(Clone(x))
+		out, err := m.Own(Clone(x))
 		if err == nil {
 			res.OK, res.Result = true, out
 			return
@@ -164,7 +164,18 @@ func Build(cfg Cfg, s *Sch, in any) Case {
 			tbl = append(tbl, fmt.Sprintf("%d %s %s", i, vx, tok))
 		}
 	}
-	body := fmt.Sprintf("%s %s %s %d%s", cfg.Tok(), s.NodeTok(0), Val(in), len(tbl), joinPrefixed(tbl))
+	// members the container's code cannot call at all (not a core.ZodSchema / no Parse method where it looks for one)
+	var skip []string
+	for i := range s.Members {
+		if !s.Asked(i) {
+			skip = append(skip, strconv.Itoa(i))
+		}
+	}
+	cfgTok := cfg.Tok()
+	if len(skip) > 0 {
+		cfgTok += ":" + strings.Join(skip, ",")
+	}
+	body := fmt.Sprintf("%s %s %s %d%s", cfgTok, s.NodeTok(0), Val(in), len(tbl), joinPrefixed(tbl))
 	return Case{S: s, In: in, Body: body, Asked: asked, Nondet: nondet}
 }
 
